@@ -56,6 +56,9 @@ class PathSyntaxError(ValueError):
         self.occ_in_error = occ_in_error
         self.ambiguous = ambiguous
         self.overflow = False
+        self.cmd = None
+        self.cmd_pos = None
+        self.bare = False
 
 
 class _Reader:
@@ -64,6 +67,9 @@ class _Reader:
         self.n = len(s)
         self.i = 0
         self.overflow = False
+        self.cmd = None
+        self.cmd_pos = None
+        self.cmd_operands = 0
 
     def wsp(self):
         s, n, i = self.s, self.n, self.i
@@ -140,8 +146,13 @@ def _read(s, require_move=True):
     """returns (items, error); error is None or a PathSyntaxError (returned, not raised)"""
     r = _Reader(s)
     items, err = _read1(r, s, require_move)
-    if err is not None and r.overflow:
-        err.overflow = True
+    if err is not None:
+        if r.overflow:
+            err.overflow = True
+        # letter and position of the command in which the error lies (None when it lies between commands)
+        err.cmd = r.cmd if err.occ_in_error is not None else None
+        err.cmd_pos = r.cmd_pos if err.occ_in_error is not None else None
+        err.bare = err.occ_in_error is not None and r.cmd_operands == 0
     return items, err
 
 
@@ -161,6 +172,7 @@ def _read1(r, s, require_move):
         first_command = False
         occ += 1
         start = r.i
+        r.cmd, r.cmd_pos, r.cmd_operands = c, start, 0
         r.i += 1
         U = c.upper()
         if U == "Z":
@@ -177,6 +189,7 @@ def _read1(r, s, require_move):
                 if v is None:
                     return items, PathSyntaxError(r.i, "%s: number missing or malformed" % c, items, occ)
                 vals.append(v)
+                r.cmd_operands += 1
             elif U == "A":
                 for k in range(7):
                     if k:
@@ -190,6 +203,7 @@ def _read1(r, s, require_move):
                             r.i, "%s: argument %d (%s) missing or malformed"
                             % (c, k + 1, "flag" if k in (3, 4) else "number"), items, occ)
                     vals.append(v)
+                    r.cmd_operands += 1
             else:
                 npairs = PAIRS[U]
                 for k in range(2 * npairs):
@@ -207,6 +221,7 @@ def _read1(r, s, require_move):
                         return items, PathSyntaxError(
                             r.i, "%s: coordinate %d of %d missing or malformed" % (c, k + 1, 2 * npairs), items, occ)
                     vals.append(v)
+                    r.cmd_operands += 1
             cmd = c
             if U == "M" and ngroups > 0:
                 cmd = "L" if c == "M" else "l"
